@@ -39,6 +39,7 @@ class LL:
         self.blob_dtype = None
         self.blob_form = None   # None: (logl, tag) | "two": (logl, tag, 2 tag) | "vector": (logl, array([tag, 2 tag, 3 tag])) | "str": (logl, repr(tag))
         self.ret = None         # how the log-likelihood value itself is spelled: None (Python float) | "np.float64" | "0d" | "list" / "readonly" (vectorised)
+        self.uses_rng = False   # the user's likelihood itself draws from numpy's global generator (legal; the seeded run must stay reproducible)
         self.fail_countdown = None  # k: the k-th evaluation from now raises UserFailure once (a transient failure of the user's code)
         self.n = 0
         self.order = []
@@ -52,6 +53,8 @@ class LL:
                 if getattr(self, "fail_kind", "exc") == "kbd":
                     raise UserInterrupt("Ctrl-C injected while the user's likelihood runs")
                 raise UserFailure("transient failure injected into the user's likelihood")
+        if self.uses_rng:
+            np.random.random()
         if self.mode == "vec":
             x = np.asarray(x)
             self.n += len(x)
@@ -149,6 +152,7 @@ def make_sampler(cfg, pool=None):
     ll.blob_dtype = c.get("blob_dtype")
     ll.blob_form = c.get("blob_form")
     ll.ret = c.get("ll_return")
+    ll.uses_rng = bool(c.get("ll_rng"))
     per, ref = BOUNDARY[c["boundary"]]
     kw = dict(
         prior_transform=_as_callable(PRIORS[c["prior"]], c.get("callable"), "prior_transform"), log_likelihood=_as_callable(ll, c.get("callable"), "log_likelihood"), n_dim=c["d"], n_particles=c["n_particles"], ess_ratio=c["ess_ratio"],
